@@ -14,6 +14,9 @@
 (*   S(n)    out(n)                                         lookup site                      *)
 (*   B(seq)  { var z<k> = 0; seq }                          nested scope                     *)
 (* every value is unique to its declaration so the output tells which binding was reached.  *)
+(* Family "tiers": the three tiers a name can live in - local, global, function - with       *)
+(* globals that APPEAR between two calls of the same body (`global a = ...` while `a` is     *)
+(* also a function): by name, a global hides a function of the same name from then on.       *)
 EXTENDS Integers, Sequences, FiniteSets, TLC, Json, IOUtils, SequencesExt
 
 Names == {"a", "h"}
@@ -30,6 +33,7 @@ Simple == {D(n) : n \in Names} \cup {Y(1, "a"), Y(2, "h"), Y(1, "h")} \cup {S(n)
 \* machine: [fr: Seq(scope), scope = Seq(<<name, val>>); out: Seq(Int); ok: BOOLEAN]
 ValOfDecl(path) == 10 + path                   \* unique value per declaration position (path < 90)
 GlobalVal(n) == IF n = "a" THEN 901 ELSE 902
+FunVal(n) == IF n = "a" THEN 801 ELSE 802        \* what a lookup site prints when the name resolves to a function
 CapVal(n) == IF n = "a" THEN 701 ELSE 702
 ParamVal == 555
 ThisVal == 333
@@ -57,6 +61,7 @@ Exec(seq, i, m, env, path) ==
            [] st.k = "S" -> (LET v == Resolve(m.fr, st.n, 0) IN
                              IF v >= 0 THEN [m EXCEPT !.out = Append(@, v)]
                              ELSE IF st.n \in env.globals THEN [m EXCEPT !.out = Append(@, GlobalVal(st.n))]
+                             ELSE IF st.n \in env.funs THEN [m EXCEPT !.out = Append(@, FunVal(st.n))]     \* last tier: the functions of that name
                              ELSE [m EXCEPT !.ok = FALSE])                 \* "Can not find object"
            [] st.k = "B" -> (LET inner == Exec(st.b, 1, [m EXCEPT !.fr = Append(@, << <<"z", 0>> >>)], env, path + 10 * i) IN
                              [inner EXCEPT !.fr = IF Len(inner.fr) > Len(m.fr) THEN SubSeq(inner.fr, 1, Len(m.fr)) ELSE inner.fr])
@@ -69,23 +74,25 @@ Prologue(prog, call) ==
    \o (IF "h" \in prog.caps THEN << <<"h", CapVal("h")>> >> ELSE <<>>)
    \o (IF prog.nparams > 0 THEN << <<"p", ParamVal>> >> ELSE <<>>)
 
-RunCall(prog, call) ==
+RunCall(prog, call, globals) ==
    LET m0 == [fr |-> << Prologue(prog, call), << <<"z", 0>> >> >>, out |-> <<>>, ok |-> TRUE]
-       m == Exec(prog.body, 1, m0, [flags |-> call.flags, globals |-> prog.globals], 0)
+       m == Exec(prog.body, 1, m0, [flags |-> call.flags, globals |-> globals, funs |-> prog.funs], 0)
    IN [out |-> m.out, ok |-> m.ok]
 
-Expect(prog, calls) == [i \in 1..Len(calls) |-> RunCall(prog, calls[i])]
+\* globals made right before call j stay for every later call
+GlobalsAt(prog, calls, i) == prog.globals \cup UNION {calls[j].mk : j \in 1..i}
+Expect(prog, calls) == [i \in 1..Len(calls) |-> RunCall(prog, calls[i], GlobalsAt(prog, calls, i))]
 
 \* ---------------------------------------------------------------- the enumerated family
 CONSTANTS Family,      \* "small" (exhaustive) | "random"
           NRandom      \* number of random cases
 
-Calls == [kind : {"free", "attr"}, flags : SUBSET Flags]
+Calls == [kind : {"free", "attr"}, flags : SUBSET Flags, mk : {{}}]
 
 SmallBodies == {<<s1, s2>> : s1 \in Simple, s2 \in Simple}
                \cup {<<s1, s2, Blk(<<s3>>)>> : s1 \in Simple, s2 \in Simple, s3 \in Simple}
                \cup {<<s1, Blk(<<s3>>), s2>> : s1 \in Simple, s2 \in {S("a"), S("h")}, s3 \in Simple}
-SmallProgs == [body : SmallBodies, globals : {{}, {"a"}}, caps : {{}}, nparams : {0}]
+SmallProgs == [body : SmallBodies, globals : {{}, {"a"}}, caps : {{}}, nparams : {0}, funs : {{}}]
 SmallCases == {[prog |-> p, calls |-> <<c1, c2>>] : p \in SmallProgs, c1 \in Calls, c2 \in Calls}
 
 BigBodies == {<<s1, s2, s3>> : s1 \in Simple, s2 \in Simple, s3 \in Simple}
@@ -93,15 +100,22 @@ BigBodies == {<<s1, s2, s3>> : s1 \in Simple, s2 \in Simple, s3 \in Simple}
 RandomCase(i) == LET body == RandomElement(BigBodies)
                      gl == RandomElement(SUBSET Names)
                      caps == RandomElement({{}, {"a"}, {"h"}})
-                 IN [prog |-> [body |-> body, globals |-> gl \ caps, caps |-> caps, nparams |-> RandomElement({0, 1})],
+                 IN [prog |-> [body |-> body, globals |-> gl \ caps, caps |-> caps, nparams |-> RandomElement({0, 1}), funs |-> {}],
                      calls |-> <<RandomElement(Calls), RandomElement(Calls), RandomElement(Calls)>>]
+
+\* tiers: names that are functions from the start, globals of the same name created between the calls
+TierBodies == {<<S(n)>> : n \in Names} \cup {<<S(n), Blk(<<S(n)>>)>> : n \in Names} \cup {<<S("a"), S("h")>>}
+              \cup {<<S(n), Blk(<<D(n), S(n)>>), S(n)>> : n \in Names} \cup {<<Y(1, "a"), S("a")>>}
+TierCalls == [kind : {"free", "attr"}, flags : {{}, {1}}, mk : {{}, {"a"}, {"h"}}]
+TierProgs == [body : TierBodies, globals : {{}}, caps : {{}}, nparams : {0}, funs : {{"a"}, {"a", "h"}}]
+TierCases == {[prog |-> p, calls |-> <<c1, c2, c3>>] : p \in TierProgs, c1 \in {c \in TierCalls : c.mk = {}}, c2 \in TierCalls, c3 \in {c \in TierCalls : c.flags = {}}}
 
 Record(i, c) == [id |-> i, prog |-> c.prog, calls |-> c.calls, expect |-> Expect(c.prog, c.calls)]
 
 \* the exhaustive family is sharded by index (this evaluation is single-threaded); the random one by seed
 CONSTANTS ShardK, ShardN
-Out == IF Family = "small"
-       THEN LET cs == SetToSeq(SmallCases)
+Out == IF Family \in {"small", "tiers"}
+       THEN LET cs == SetToSeq(IF Family = "small" THEN SmallCases ELSE TierCases)
                 idx == SelectSeq([i \in 1..Len(cs) |-> i], LAMBDA i : i % ShardN = ShardK)
             IN [j \in 1..Len(idx) |-> Record(idx[j], cs[idx[j]])]
        ELSE [i \in 1..NRandom |-> Record((ShardK + 1) * 1000000 + i, RandomCase(i))]
